@@ -68,6 +68,10 @@ def rand_payload(rng, big_ok=True):
     if pick == 7:
         return "Q:%d:%s" % (rng.below(12), rand_bytes_expr(rng, False))
     if pick == 8:
+        if rng.chance(1, 3):
+            # a section value that has already been (partly) iterated: well-formed items so that next() advances
+            items = b"".join(bytes([rng.below(256), 0, n]) + rng.bytes(n) for n in [rng.below(4) for _ in range(1 + rng.below(3))])
+            return "S:%d:%s" % (1 + rng.below(3), hx(items + rng.bytes(rng.below(3))))
         return "s:" + rand_bytes_expr(rng, big_ok)
     return "y:%d" % rng.below(12)
 
